@@ -24,6 +24,12 @@ CLAIMED["C08"] = (
     "Coq kernel; extraction; harness/C08.cpp; hook H1; LinkedList<EventQueueNode*> modelled as a Coq list; handlers do not destroy their own listener; see DESIGN.md 4/C08",
     "DESIGN.md 4 (C08)")
 
+CLAIMED["C06"] = (
+    "Coq proof of refinement of the timer model (insertion-ordered list, backward <= scan, dirty flag, two time bases) to a bag of (due, seq) waiters (all thread programs, all clock schedules) + extracted model/spec run against the engine under the injected clock",
+    "Theorems C06_*: for every set of straight-line thread programs (println/wait), every start schedule and every sequence of clock advances and Execute calls, the code-level model (con::timer's element list and GetNextElement scan, AddTiming on the scaled time, SetTime/Frame, ExecuteRunning's dirty-flag loop) equals the specification that resumes the waiter minimal in (due time, registration order) while it is due: nobody is resumed early, nobody twice, nothing due remains after an Execute, the resume loop never hangs, the engine is busy while a thread waits. Tied to timer.cpp/ScriptMaster.cpp/Time.cpp/Context.cpp by differential execution of real scripts under hook H1 (exhaustive small schedules + random histories).",
+    "Coq kernel; extraction; harness/C06.cpp + engine.h; hook H1 (integral clock, constant during Execute, time scale 1); threads are println/wait programs; see DESIGN.md 4/C06",
+    "DESIGN.md 4 (C06)")
+
 NOT_YET = "no model, theorem and correspondence check has been built for this property yet (work in progress; see DESIGN.md 9 for the order of work)"
 
 
